@@ -43,7 +43,12 @@ class Population:
         return [Individual(genome, self.problem, fitness) for genome, fitness in zip(self.genomes, self.fitnesses)]
 
     def topk(self, k: int) -> "Population":
-        topk_indices = np.argsort(self.fitnesses)[-k:] if self.problem.maximize else np.argsort(self.fitnesses)[:k]
+        if self.problem.maximize:
+            # argsort puts NaN last, which would rank individuals with an undefined fitness as the best ones here.
+            keys = np.where(np.isnan(self.fitnesses), -np.inf, self.fitnesses)
+            topk_indices = np.argsort(keys)[-k:]
+        else:
+            topk_indices = np.argsort(self.fitnesses)[:k]
         return Population(self.genomes[topk_indices], self.fitnesses[topk_indices], self.problem)
 
     def merge(self, other: "Population") -> "Population":
